@@ -27,6 +27,8 @@ pub struct Task {
     waker: Waker,
     pub name: String,
     pub polls: u64,
+    /// scheduler step at which the task was last polled (candidates are offered least recently run first)
+    last_run: u64,
 }
 
 /// Events of the simulated world (transport, timers) that the scheduler interleaves with tasks.
@@ -97,6 +99,8 @@ pub struct Exec {
     pub max_steps: u64,
     pub spurious: bool,
     pub panic: Option<PanicInfo>,
+    /// scheduler step at which a world event last fired
+    last_event: u64,
 }
 
 impl Default for Exec {
@@ -108,12 +112,12 @@ impl Default for Exec {
 impl Exec {
     pub fn new() -> Self {
         SPAWNQ.with(|q| q.borrow_mut().clear());
-        Exec { tasks: Vec::new(), steps: 0, max_steps: 20_000, spurious: false, panic: None }
+        Exec { tasks: Vec::new(), steps: 0, max_steps: 20_000, spurious: false, panic: None, last_event: 0 }
     }
     fn add(&mut self, name: String, fut: LocalFut) -> usize {
         let flag = Arc::new(Flag(AtomicBool::new(true)));
         let waker = Waker::from(flag.clone());
-        self.tasks.push(Task { fut: Some(fut), flag, waker, name, polls: 0 });
+        self.tasks.push(Task { fut: Some(fut), flag, waker, name, polls: 0, last_run: 0 });
         self.tasks.len() - 1
     }
     pub fn spawn(&mut self, name: impl Into<String>, f: impl Future<Output = ()> + 'static) -> usize {
@@ -153,6 +157,7 @@ impl Exec {
         let t = &mut self.tasks[id];
         t.flag.0.store(false, Ordering::SeqCst);
         t.polls += 1;
+        t.last_run = self.steps;
         let w = t.waker.clone();
         let mut cx = Context::from_waker(&w);
         let fut = t.fut.as_mut().unwrap();
@@ -202,15 +207,23 @@ impl Exec {
             if total == 0 {
                 return Stop::Quiescent;
             }
+            // Candidates are offered least recently run first (the world's events form one block, placed by
+            // the step of the last event): a uniform draw is indifferent to the order, but low choice values -
+            // what minimisation converges to, and what an exhausted replay vector reads - then mean a fair
+            // round-robin schedule instead of one task (or a harness task that yields in a loop) starving
+            // everything else.
+            ready.sort_by_key(|&i| (self.tasks[i].last_run, i));
+            let pos = ready.iter().take_while(|&&i| self.tasks[i].last_run <= self.last_event).count();
             let extra = if self.spurious && pending_unready > 0 { 1 } else { 0 };
             let pick = draw((total + extra) as u32) as usize;
             self.steps += 1;
-            if pick < ready.len() {
-                let id = ready[pick];
+            if pick < pos || (pick >= pos + nev && pick < total) {
+                let id = if pick < pos { ready[pick] } else { ready[pick - nev] };
                 obs::ev("poll", id as u64 * 4, 0);
                 self.poll_task(id);
             } else if pick < total {
-                world.fire(pick - ready.len());
+                self.last_event = self.steps;
+                world.fire(pick - pos);
             } else {
                 // spurious poll of a task that was not woken (legal in Rust async)
                 let k = draw(pending_unready as u32) as usize;
